@@ -1342,4 +1342,7 @@ func runC19(c *core.Ctx) {
 			return s
 		}()})
 	}
+	if f, ok := extra["C19"]; ok {
+		f(c)
+	}
 }
